@@ -3,6 +3,7 @@ package main
 import (
 	"fmt"
 	"go/token"
+	"sort"
 	"strings"
 
 	"golang.org/x/tools/go/ssa"
@@ -793,4 +794,240 @@ func ruleMemTableGetTable(c *Ctx, r *Reporter) {
 					"a deletion marker must count as found-but-deleted, otherwise the lookup falls through to older tables and a deleted key comes back with its old value"))
 		}
 	}
+}
+
+// ruleReplNoReentrancy: the self-deadlock rule of C07 applied to the replication package (a method that holds a lock of its
+// receiver calls a method of the same receiver that takes it again — e.g. unregistering a session from inside the broadcast
+// loop that holds Primary.mu shared). On the primary this happens inside wal.Append, with the WAL lock held.
+func ruleReplNoReentrancy(c *Ctx, r *Reporter) {
+	r.Rule("no-reentrancy-in-replication", 5)
+	checkNoReentrancy(c, r, func(fn *ssa.Function) bool { return pkgOf(fn) == "pkg/replication" })
+}
+
+// ruleLockReleasedOnEveryExit: pairing — in every function, a lock acquired on a path is released (directly or by a deferred
+// unlock already registered) before every return that path can reach. Hand-over functions that return holding a lock by
+// design are listed with the function that releases it.
+var lockHandOver = map[string]string{
+	"transaction.Manager.BeginTransaction|transaction.Manager.txLock": "released by TransactionImpl.Commit/Rollback through releaseReadLock/releaseWriteLock (C04/C17 release-at-end)",
+}
+
+func ruleLockReleasedOnEveryExit(c *Ctx, r *Reporter) {
+	r.Rule("lock-released-on-every-exit", 150)
+	for _, fn := range c.KevoFns {
+		p := pkgOf(fn)
+		if !strings.HasPrefix(p, "pkg/") || strings.HasPrefix(p, "pkg/client") || p == "pkg/engine/transaction" {
+			continue // pkg/engine/transaction: a second transaction implementation nobody imports (dead)
+		}
+		type acq struct {
+			ins  ssa.Instruction
+			op   LockOp
+			base ssa.Value
+		}
+		var acqs []acq
+		for _, b := range fn.Blocks {
+			for _, ins := range b.Instrs {
+				call, ok := ins.(*ssa.Call)
+				if !ok {
+					continue
+				}
+				if op, ok := lockOpOfCommon(call.Common()); ok && op.Acquire {
+					acqs = append(acqs, acq{ins, op, lockBase(call.Common())})
+				}
+			}
+		}
+		for i, a := range acqs {
+			a := a
+			isRelease := func(x ssa.Instruction) bool {
+				var cc *ssa.CallCommon
+				switch y := x.(type) {
+				case *ssa.Call:
+					cc = y.Common()
+				case *ssa.Defer:
+					cc = y.Common()
+					// defer func() { mu.Unlock() }()
+					if mc, ok := y.Call.Value.(*ssa.MakeClosure); ok {
+						rel := false
+						AllInstrs(mc.Fn.(*ssa.Function), false, func(_ *ssa.Function, z ssa.Instruction) {
+							if cl, ok := z.(*ssa.Call); ok {
+								if op, ok := lockOpOfCommon(cl.Common()); ok && !op.Acquire && op.ID == a.op.ID {
+									rel = true
+								}
+							}
+						})
+						return rel
+					}
+				default:
+					return false
+				}
+				op, ok := lockOpOfCommon(cc)
+				if !ok || op.Acquire || op.ID != a.op.ID {
+					return false
+				}
+				return sameLockBase(lockBase(cc), a.base)
+			}
+			hit, path := ReachE(fn, a.ins, func(x ssa.Instruction) bool { _, isR := x.(*ssa.Return); return isR }, isRelease, nil)
+			cons := fmt.Sprintf("%s:%s#%d", FnName(fn), a.op.ID, i)
+			if hit == nil {
+				r.OK(cons, c.InsPos(a.ins), "released (or deferred) before every return")
+				continue
+			}
+			if why, ok := lockHandOver[FnName(topParent(fn))+"|"+a.op.ID]; ok {
+				r.OK(cons, c.InsPos(a.ins), "hand-over by design: "+why)
+				continue
+			}
+			// a release helper called on the way (same receiver): e.g. releaseWriteLock()
+			viaHelper := false
+			hit2, _ := ReachE(fn, a.ins, func(x ssa.Instruction) bool { _, isR := x.(*ssa.Return); return isR }, func(x ssa.Instruction) bool {
+				if isRelease(x) {
+					return true
+				}
+				var cc *ssa.CallCommon
+				switch y := x.(type) {
+				case *ssa.Call:
+					cc = y.Common()
+				case *ssa.Defer:
+					cc = y.Common()
+				default:
+					return false
+				}
+				if g := cc.StaticCallee(); g != nil && c.InKevo(g) && len(g.Blocks) > 0 {
+					rel := false
+					AllInstrs(g, true, func(_ *ssa.Function, z ssa.Instruction) {
+						if cl, ok := z.(*ssa.Call); ok {
+							if op, ok := lockOpOfCommon(cl.Common()); ok && !op.Acquire && op.ID == a.op.ID {
+								rel = true
+							}
+						}
+					})
+					return rel
+				}
+				return false
+			}, nil)
+			if hit2 == nil {
+				viaHelper = true
+			}
+			if viaHelper {
+				r.OK(cons, c.InsPos(a.ins), "released through a helper before every return")
+				continue
+			}
+			r.Bad(cons, c.InsPos(a.ins), "a return is reachable after this acquisition without a release of "+a.op.ID+" (no unlock on the path and no deferred unlock registered before it): the lock stays held and the next user of it blocks for ever", c.PathString(path)...)
+		}
+	}
+}
+
+func sameLockBase(a, b ssa.Value) bool {
+	if a == nil || b == nil {
+		return false
+	}
+	if sameValue(a, b) {
+		return true
+	}
+	fa, oka := a.(*ssa.FieldAddr)
+	fb, okb := b.(*ssa.FieldAddr)
+	if oka && okb && fa.Field == fb.Field {
+		return sameLockBase(fa.X, fb.X) || sameValue(fa.X, fb.X) || sameFieldLoad(fa.X, fb.X)
+	}
+	// two loads of the same captured variable / cell
+	la, oka := a.(*ssa.UnOp)
+	lb, okb := b.(*ssa.UnOp)
+	if oka && okb && la.Op == token.MUL && lb.Op == token.MUL && la.X == lb.X {
+		return true
+	}
+	return false
+}
+
+// ruleReflectiveDoors: the transaction registry reaches the engine reflectively (reflect.Value.MethodByName), which the call
+// graph cannot see. The only door it may use is the engine's own BeginTransaction — the facade method that downgrades a
+// replica's transactions to read-only. Any other reflective method name (or a non-constant one) is a way around the guard.
+func ruleReflectiveDoors(c *Ctx, r *Reporter) {
+	r.Rule("reflective-calls-use-the-guarded-door", 1)
+	allowed := map[string]bool{"BeginTransaction": true}
+	n := 0
+	var bad []string
+	for _, fn := range c.KevoFns {
+		p := pkgOf(fn)
+		if p != "pkg/transaction" && p != "pkg/grpc/service" && p != "pkg/engine" {
+			continue
+		}
+		AllInstrs(fn, false, func(_ *ssa.Function, ins ssa.Instruction) {
+			call, ok := ins.(*ssa.Call)
+			if !ok {
+				return
+			}
+			switch staticName(call) {
+			case "(reflect.Value).MethodByName", "(reflect.Value).Method", "(reflect.Value).FieldByName", "(reflect.Value).Call":
+			default:
+				return
+			}
+			if staticName(call) == "(reflect.Value).Call" {
+				return
+			}
+			n++
+			if s, isS := constString(call.Call.Args[len(call.Call.Args)-1]); isS && allowed[s] && staticName(call) == "(reflect.Value).MethodByName" {
+				return
+			}
+			bad = append(bad, staticName(call)+"("+Path(call.Call.Args[len(call.Call.Args)-1])+") in "+FnName(topParent(fn))+" at "+c.InsPos(ins))
+		})
+	}
+	if n == 0 {
+		r.Info("transaction:reflective-lookups", "", "no reflective method lookup left")
+		r.OK("transaction:reflective-lookups:none", "", "nothing to restrict")
+		return
+	}
+	r.Check(len(bad) == 0, "transaction:reflective-lookups", "", fmt.Sprintf("%d reflective lookup(s), all of the engine's BeginTransaction", n),
+		"the engine is reached reflectively through another door than its BeginTransaction ("+strings.Join(bad, "; ")+"): the facade's BeginTransaction is the only place where a read-only (replica) engine downgrades a client's transaction, so a client of a replica can commit writes")
+}
+
+// ruleKeepalivePings: a replica behind a silently cut connection (no FIN/RST) is only noticed because the primary's gRPC
+// server pings idle connections: keepalive.ServerParameters.Time must be set to a positive constant (the library default
+// is two hours) together with a Timeout. MaxConnectionIdle is not a substitute: a replica always has its stream open.
+func ruleKeepalivePings(c *Ctx, r *Reporter) {
+	r.Rule("keepalive-pings-enabled", 1)
+	found := false
+	for _, fn := range c.KevoFns {
+		if pkgOf(fn) != "pkg/replication" {
+			continue
+		}
+		AllInstrs(fn, false, func(_ *ssa.Function, ins ssa.Instruction) {
+			al, ok := ins.(*ssa.Alloc)
+			if !ok || !strings.HasSuffix(deref(al.Type()).String(), "keepalive.ServerParameters") || al.Referrers() == nil {
+				return
+			}
+			found = true
+			fields := map[string]int64{}
+			for _, ref := range *al.Referrers() {
+				fa, ok := ref.(*ssa.FieldAddr)
+				if !ok || fa.Referrers() == nil {
+					continue
+				}
+				for _, rr := range *fa.Referrers() {
+					if st, ok := rr.(*ssa.Store); ok {
+						if k, isK := constInt(st.Val); isK {
+							fields[fieldName(fa)] = k
+						} else {
+							fields[fieldName(fa)] = -1
+						}
+					}
+				}
+			}
+			const hour = int64(3600) * 1e9
+			t, hasT := fields["Time"]
+			_, hasTo := fields["Timeout"]
+			ok2 := hasT && t > 0 && t <= hour && hasTo
+			r.Check(ok2, FnName(topParent(fn))+":keepalive.ServerParameters", c.InsPos(ins), fmt.Sprintf("Time=%ds with a Timeout: idle connections are pinged", t/1e9),
+				fmt.Sprintf("the primary's gRPC server is not configured to ping its peers (Time set: %v, Timeout set: %v; fields set: %v): with the default of two hours a replica behind a silently cut connection stays in the topology, and once the send window towards it is full the blocking Send stalls client writes", hasT && t > 0, hasTo, keysOf(fields)))
+		})
+	}
+	if !found {
+		r.Bad("replication:keepalive.ServerParameters", "", "the primary's gRPC server sets no keepalive parameters at all: dead peers are never detected")
+	}
+}
+
+func keysOf(m map[string]int64) []string {
+	var out []string
+	for k := range m {
+		out = append(out, k)
+	}
+	sort.Strings(out)
+	return out
 }
